@@ -1,6 +1,7 @@
 package main
 
 import (
+	"mime"
 	"fmt"
 	"net/http"
 	"strings"
@@ -13,7 +14,9 @@ import (
 // ---- C14: Hosts matcher ---------------------------------------------------------------------------
 
 var hostLits = []string{"\u00e9cole.example.com", "\u043f\u0440\u0438\u043c\u0435\u0440.example.com", "api.example.com", "www.example.com", "a.example.com", "b.example.com", "c.example.com", "d.example.com", "e.example.com", "example.com", "x.org", "api.x.org"}
-var hostPats = []string{"{n:\\d+}.a.example.com", "{n:\\d+}.b.example.com", "{s:[a-z]+}.a.x.org", "{s:[a-z]+}.b.x.org", "{sub}.example.com", "{sub:[a-z]+}.example.com", "{n:\\d+}.example.com", "{sub:word}.example.com", "{a}.{b}.example.com", "{-ign}.x.org", "s.{zone}.example.com", "{w:digit}.x.org", "{any}"}
+var hostPats = []string{"{n:\\d+}.a.example.com", "{n:\\d+}.b.example.com", "{s:[a-z]+}.a.x.org", "{s:[a-z]+}.b.x.org", "{sub}.example.com", "{sub:[a-z]+}.example.com", "{n:\\d+}.example.com", "{sub:word}.example.com", "{a}.{b}.example.com", "{-ign}.x.org", "s.{zone}.example.com", "{w:digit}.x.org", "{any}",
+	// a parameter node that later registrations split inside its literal tail, with parameter siblings at the split point
+	"{sub}.example.{tld:[a-z]+}", "{sub}.example.{n:\\d+}", "{sub}.example.org", "{sub}.example.net", "{sub}.example.io", "{sub}.example.dev", "{sub}.example.{tld}"}
 
 func randCase(r *Rng, s string) string {
 	b := []byte(s)
@@ -62,7 +65,199 @@ func normHost(h string) string {
 	return strings.ToLower(h)
 }
 
+// ---- C14, concurrent: a locked Hosts mutated and matched at the same time -------------------------
+//
+// NewHosts(true) is the matcher's own WithLock: Add, Delete and Match may then run concurrently.  Every
+// domain has exactly one writer task, so each domain is a single-writer register: a Match on one of
+// its hosts must report a state the domain had at some instant of the call, and once all tasks are
+// done the matcher must agree with the last write to each domain.
+var c14ConcDomains = []string{"a.example.com", "b.example.com", "api.x.org", "c.example.com", "{sub}.c.com", "{n:\\d+}.g.com", "d.example.com", "{w}.h.org"}
+
+func c14ConcHost(r *Rng, d string) (string, map[string]string) {
+	p, _ := ParsePattern(d, nil)
+	h, ps := p.Witness(r)
+	if r.Pct(30) {
+		h = randCase(r, h)
+	}
+	if r.Pct(20) {
+		h += ":8080"
+	}
+	if ps == nil {
+		ps = map[string]string{}
+	}
+	return h, ps
+}
+
+func genC14Conc(r *Rng) *World {
+	w := &World{Variant: "conc"}
+	w.Pool = genPoolCfg(r)
+	w.Sim = genSim(r)
+	w.Opts.Lock = true
+	doms := append([]string{}, c14ConcDomains...)
+	shuffle(r, doms)
+	doms = doms[:r.Range(2, 6)]
+	live := map[string]bool{}
+	for _, d := range doms {
+		if r.Pct(60) {
+			w.Setup = append(w.Setup, Op{K: "add", Pattern: d})
+			live[d] = true
+		}
+	}
+	nW := r.Range(1, 2)
+	owned := make([][]string, nW)
+	for i, d := range doms {
+		owned[i%nW] = append(owned[i%nW], d)
+	}
+	for t := 0; t < nW; t++ {
+		var ops []Op
+		for i := r.Range(1, 5); i > 0 && len(owned[t]) > 0; i-- {
+			d := pick(r, owned[t])
+			if live[d] {
+				ops = append(ops, Op{T: t, K: "delete", Pattern: randCase(r, d), Name: d})
+			} else {
+				ops = append(ops, Op{T: t, K: "add", Pattern: randCase(r, d), Name: d})
+			}
+			live[d] = !live[d]
+		}
+		w.Tasks = append(w.Tasks, ops)
+	}
+	for t := r.Range(1, 3); t > 0; t-- {
+		var ops []Op
+		for i := r.Range(1, 5); i > 0; i-- {
+			d := pick(r, doms)
+			h, ps := c14ConcHost(r, d)
+			ops = append(ops, Op{T: len(w.Tasks), K: "match", Name: d, Req: &Req{Method: "GET", Path: "/", Host: h}, Params: ps})
+		}
+		w.Tasks = append(w.Tasks, ops)
+	}
+	return w
+}
+
+func execC14Conc(w *World, st *Stats) (*Violation, RunInfo) {
+	simrt.SetPoolCfg(w.Pool)
+	info := RunInfo{Shape: worldShape(w)}
+	mk := func(oracle, sig, detail string) *Violation {
+		return &Violation{Prop: "C14", Oracle: oracle, Sig: sig, Detail: detail}
+	}
+	hs := mux.NewHosts(true)
+	state := map[string]bool{} // after setup
+	for i := range w.Setup {
+		hs.Add(w.Setup[i].Pattern)
+		state[w.Setup[i].Pattern] = true
+	}
+	logs, sw := runTasks(w, func(task int, op *Op) string {
+		switch op.K {
+		case "add":
+			if pan := catch(func() { hs.Add(op.Pattern) }); pan != nil {
+				return "panic(" + classifyPanic(pan) + ")"
+			}
+			return "ok"
+		case "delete":
+			if pan := catch(func() { hs.Delete(op.Pattern) }); pan != nil {
+				return "panic(" + classifyPanic(pan) + ")"
+			}
+			return "ok"
+		default:
+			ok, ps, pan := hostMatch(hs, op.Req.Host)
+			if pan != nil {
+				return "panic(" + classifyPanic(pan) + ")"
+			}
+			return fmt.Sprint(ok, " ", fmtParams(ps))
+		}
+	})
+	info.Interleave, info.Events, info.Sched = sw.Hash(), sw.Steps(), sw.Recorded()
+	info.Shape = hashU(info.Shape, sw.Hash())
+	info.Hash = foldLogs(sw.Hash(), logs)
+	info.Nontrivial = sw.Preempts > 0
+	st.CN("preempt", sw.Preempts)
+	st.C("c14_conc_worlds")
+	if sw.WasAborted() {
+		if sw.AbortReason == "deadlock" {
+			return mk("deadlock", "deadlock", "Add/Delete/Match on a locked Hosts block each other for ever"+describeHistory(logs)), info
+		}
+		st.Inconclusive["cap"]++
+		return nil, info
+	}
+	for _, t := range sw.Tasks() {
+		if t.Panic != nil {
+			return mk("no-panic", "task-panic", fmt.Sprintf("task %s died: %v", t.Name, t.Panic)+describeHistory(logs)), info
+		}
+	}
+	// per domain: the writer's history
+	type wr struct {
+		inv, ret int64
+		live     bool
+	}
+	writes := map[string][]wr{}
+	for _, l := range logs {
+		if strings.HasPrefix(l.Out, "panic(") {
+			return mk("no-panic", "op-panic", fmt.Sprintf("%s -> %s", l.Op, l.Out)+describeHistory(logs)), info
+		}
+		if l.Op.K == "add" || l.Op.K == "delete" {
+			writes[l.Op.Name] = append(writes[l.Op.Name], wr{l.Inv, l.Ret, l.Op.K == "add"})
+		}
+	}
+	want := func(live bool, ps map[string]string) string {
+		if !live {
+			return "false " + fmtParams(nil)
+		}
+		return "true " + fmtParams(ps)
+	}
+	for _, l := range logs {
+		if l.Op.K != "match" {
+			continue
+		}
+		st.C("c14_conc_match_checked")
+		d := l.Op.Name
+		cur := state[d]
+		admissible := map[string]bool{}
+		for _, x := range writes[d] { // in program order of the single writer
+			if x.ret < l.Inv {
+				cur = x.live
+			}
+		}
+		admissible[want(cur, l.Op.Params)] = true
+		for _, x := range writes[d] {
+			if x.ret >= l.Inv && x.inv <= l.Ret { // overlaps the match
+				admissible[want(x.live, l.Op.Params)] = true
+			}
+		}
+		if !admissible[l.Out] {
+			var adm []string
+			for k := range admissible {
+				adm = append(adm, k)
+			}
+			sortStrings(adm)
+			return mk("register", "stale-or-foreign-answer", fmt.Sprintf("Match(%q) for domain %s answered %q; the domain's states during the call allow %q", l.Op.Req.Host, d, l.Out, adm)+describeHistory(logs)), info
+		}
+	}
+	// quiescent: the last write to each domain decides
+	final := map[string]bool{}
+	for d, v := range state {
+		final[d] = v
+	}
+	for d, ws := range writes {
+		final[d] = ws[len(ws)-1].live
+	}
+	rr := NewRng(uint64(info.Interleave) | 1)
+	for _, d := range c14ConcDomains {
+		host, wps := c14ConcHost(rr, d)
+		ok, ps, pan := hostMatch(hs, host)
+		got := fmt.Sprint(ok, " ", fmtParams(ps))
+		if pan != nil {
+			return mk("no-panic", "match-panic", fmt.Sprintf("Match(%q) panicked afterwards: %s", host, classifyPanic(pan))), info
+		}
+		if w := want(final[d], wps); got != w {
+			return mk("quiescent", "final-state", fmt.Sprintf("after all tasks finished domain %s is live=%v, but Match(%q) answers %q, want %q", d, final[d], host, got, w)+describeHistory(logs)), info
+		}
+	}
+	return nil, info
+}
+
 func genC14(r *Rng, idx int, tier string) *World {
+	if r.Pct(12) {
+		return genC14Conc(r)
+	}
 	w := &World{}
 	w.Pool = genPoolCfg(r)
 	w.Opts.Lock = r.Pct(30)
@@ -201,6 +396,9 @@ func sortStrings(s []string) {
 }
 
 func execC14(w *World, st *Stats) (*Violation, RunInfo) {
+	if w.Variant == "conc" {
+		return execC14Conc(w, st)
+	}
 	simrt.SetPoolCfg(w.Pool)
 	info := RunInfo{Shape: worldShape(w), Events: int64(len(w.Ops))}
 	h := uint64(14695981039346656037)
@@ -224,7 +422,9 @@ func execC14(w *World, st *Stats) (*Violation, RunInfo) {
 			low := strings.ToLower(op.Pattern)
 			// parameter names keep their case in the model only through lower-casing the whole string, as documented
 			p, ok := ParsePattern(low, ics)
-			pan := catch(func() { hs.Add(op.Pattern) })
+			ds := []string{op.Pattern, "spare.invalid"}[:1] // the caller's buffer, reused right after the call
+			pan := catch(func() { hs.Add(ds...) })
+			ds[0] = "clobbered.invalid"
 			if pan != nil || !ok {
 				continue
 			}
@@ -368,7 +568,8 @@ func buildMatcher(s *MSpec) mux.Matcher {
 	case "pv":
 		return mux.NewPathVersion(s.A[0], append([]string{}, s.A[1:]...)...)
 	case "hv":
-		return mux.NewHeaderVersion(s.A[0], "version", func(error) {}, s.A[1:]...)
+		param, key := hvParamKey(s.A[0])
+		return mux.NewHeaderVersion(param, key, func(error) {}, s.A[1:]...)
 	case "and", "or":
 		var subs []mux.Matcher
 		for _, x := range s.Sub {
@@ -435,7 +636,8 @@ func genMSpec(r *Rng, depth int) *MSpec {
 		}
 		return &MSpec{K: "pv", A: a}
 	case 5:
-		return &MSpec{K: "hv", A: []string{pick(r, []string{"hver", ""}), pick(r, []string{"1", "2"}), "3"}}
+		// "param@key": the Accept parameter that carries the version ("version" when absent)
+		return &MSpec{K: "hv", A: []string{pick(r, []string{"hver", "", "hver@v", "@v", "hv2@v"}), pick(r, []string{"1", "2"}), "3"}}
 	case 6, 7:
 		n := r.Range(2, 3)
 		s := &MSpec{K: "and"}
@@ -506,9 +708,40 @@ func genC13(r *Rng, idx int, tier string) *World {
 			Path: pick(r, []string{"", "/v1", "/v2", "/v11", "/v3", "/api"}) + pick(r, []string{"/x", "/x/5", "/y", "/y/zk", "/", "/api/7", "/nope", "/v1/x"}),
 			Host: pick(r, []string{"a.com", "b.com", "zz.c.com", "api.a.com", "d.com", "7.e.com", "other.org", "A.COM:80", "a.com:http", "b.com:80a", "d.com:-1", "api.a.com:"})}
 		if r.Pct(50) {
-			q.Hdr = map[string]string{"Accept": pick(r, []string{"application/json; version=1", "application/json; version=2", "text/html", "application/json; version=3"})}
+			q.Hdr = map[string]string{"Accept": pick(r, []string{"application/json; version=1", "application/json; version=2", "text/html", "application/json; version=3",
+				"application/json; version=1; v=3", "application/json; v=1", "application/json; v=2; version=3", "application/json; version=3; v=1", "application/json; version="})}
 		}
 		w.Ops = append(w.Ops, Op{T: 10, K: "req", Req: &q})
+	}
+	if r.Pct(35) && len(routers) > 0 {
+		// a second administrative phase on the group that has already served requests, then the same
+		// requests again (and the group must answer from its current routers, not from what it saw before)
+		first := append([]Op{}, w.Ops[n:]...)
+		for k := r.Range(1, 3); k > 0; k-- {
+			op := Op{T: r.Intn(3)}
+			switch r.Intn(4) {
+			case 0, 1:
+				op.K, op.Name = "gremove", pick(r, routers)
+			case 2:
+				op.K = pick(r, []string{"gnew", "gadd"})
+				op.Name = fmt.Sprintf("late%d", k)
+				routers = append(routers, op.Name)
+				op.Args = []string{encodeSpec(genMSpec(r, 1)), ""}
+			default:
+				op.K, op.Name = "handle", pick(r, routers)
+				hid++
+				op.HID = hid
+				op.Pattern = pick(r, []string{"/x", "/x/{id}", "/y", "/late", "/{any}", "/"})
+				op.Methods = []string{"POST"}
+			}
+			w.Ops = append(w.Ops, op)
+		}
+		for _, q := range first {
+			if r.Pct(70) {
+				rq := *q.Req
+				w.Ops = append(w.Ops, Op{T: 10, K: "req", Req: &rq})
+			}
+		}
 	}
 	return w
 }
@@ -562,6 +795,7 @@ func decodeSpec(s string) *MSpec {
 }
 
 type c13Group struct {
+	routers map[string]*mux.Router[*Comp]
 	env   *Env
 	g     *mux.Group[*Comp]
 	specs map[string]*MSpec
@@ -573,69 +807,74 @@ type c13Group struct {
 // buildC13 replays the administrative history; only != "" keeps just that router (the stand-alone twin).
 func buildC13(w *World, upto int, only string) *c13Group {
 	env := NewEnv()
-	cg := &c13Group{env: env, specs: map[string]*MSpec{}}
+	cg := &c13Group{env: env, specs: map[string]*MSpec{}, routers: map[string]*mux.Router[*Comp]{}}
 	cg.g = mux.NewGroup[*Comp](env.Call, env.Group404(idG404), env.NotAllowedBuilder(id405), env.OptionsBuilder(idOptions))
-	routers := map[string]*mux.Router[*Comp]{}
 	for i := 0; i < upto && i < len(w.Ops); i++ {
-		op := &w.Ops[i]
-		catch(func() {
-			switch op.K {
-			case "gnew", "gadd":
-				if only != "" && op.Name != only {
-					return
-				}
-				spec := decodeSpec(op.Args[0])
-				if routers[op.Name] != nil {
-					// the name is taken: the call must be refused (it panics) and change nothing
-					switch {
-					case op.K == "gnew":
-						cg.g.New(op.Name, buildMatcher(spec))
-					case op.HID%2 == 0:
-						// the member router object itself, offered again with another matcher
-						cg.g.Add(buildMatcher(spec), routers[op.Name])
-					default:
-						cg.g.Add(buildMatcher(spec), NewSimRouter(env, RouterOpts{Name: op.Name}))
-					}
-					cg.dupAccepted = append(cg.dupAccepted, op.Name)
-					return
-				}
-				var r *mux.Router[*Comp]
-				if op.K == "gnew" {
-					var extra []mux.Option
-					if len(op.Args) > 1 && op.Args[1] == "trace" {
-						extra = append(extra, mux.WithTrace(env.TraceH(idTrace)))
-					}
-					r = cg.g.New(op.Name, buildMatcher(spec), extra...)
-				} else {
-					r = NewSimRouter(env, RouterOpts{Name: op.Name})
-					cg.g.Add(buildMatcher(spec), r)
-				}
-				routers[op.Name] = r
-				cg.specs[op.Name] = spec
-				cg.order = append(cg.order, op.Name)
-			case "gremove":
-				cg.g.Remove(op.Name)
-				if routers[op.Name] != nil {
-					delete(routers, op.Name)
-					delete(cg.specs, op.Name)
-					for k, n := range cg.order {
-						if n == op.Name {
-							cg.order = append(cg.order[:k], cg.order[k+1:]...)
-							break
-						}
-					}
-				}
-			case "guse":
-				cg.g.Use(env.MWs(op.MW...)...)
-				cg.guse = append(cg.guse, op.MW...)
-			case "handle":
-				if r := routers[op.Name]; r != nil {
-					r.Handle(op.Pattern, env.Handler(op.HID, nil), nil, op.Methods...)
-				}
-			}
-		})
+		cg.apply(&w.Ops[i], only)
 	}
 	return cg
+}
+
+// apply executes one administrative op on the group (requests are ignored); only != "" restricts the
+// group to that one router (the stand-alone twin).
+func (cg *c13Group) apply(op *Op, only string) {
+	env, routers := cg.env, cg.routers
+	catch(func() {
+		switch op.K {
+		case "gnew", "gadd":
+			if only != "" && op.Name != only {
+				return
+			}
+			spec := decodeSpec(op.Args[0])
+			if routers[op.Name] != nil {
+				// the name is taken: the call must be refused (it panics) and change nothing
+				switch {
+				case op.K == "gnew":
+					cg.g.New(op.Name, buildMatcher(spec))
+				case op.HID%2 == 0:
+					// the member router object itself, offered again with another matcher
+					cg.g.Add(buildMatcher(spec), routers[op.Name])
+				default:
+					cg.g.Add(buildMatcher(spec), NewSimRouter(env, RouterOpts{Name: op.Name}))
+				}
+				cg.dupAccepted = append(cg.dupAccepted, op.Name)
+				return
+			}
+			var r *mux.Router[*Comp]
+			if op.K == "gnew" {
+				var extra []mux.Option
+				if len(op.Args) > 1 && op.Args[1] == "trace" {
+					extra = append(extra, mux.WithTrace(env.TraceH(idTrace)))
+				}
+				r = cg.g.New(op.Name, buildMatcher(spec), extra...)
+			} else {
+				r = NewSimRouter(env, RouterOpts{Name: op.Name})
+				cg.g.Add(buildMatcher(spec), r)
+			}
+			routers[op.Name] = r
+			cg.specs[op.Name] = spec
+			cg.order = append(cg.order, op.Name)
+		case "gremove":
+			cg.g.Remove(op.Name)
+			if routers[op.Name] != nil {
+				delete(routers, op.Name)
+				delete(cg.specs, op.Name)
+				for k, n := range cg.order {
+					if n == op.Name {
+						cg.order = append(cg.order[:k], cg.order[k+1:]...)
+						break
+					}
+				}
+			}
+		case "guse":
+			cg.g.Use(env.MWs(op.MW...)...)
+			cg.guse = append(cg.guse, op.MW...)
+		case "handle":
+			if r := routers[op.Name]; r != nil {
+				r.Handle(op.Pattern, env.Handler(op.HID, nil), nil, op.Methods...)
+			}
+		}
+	})
 }
 
 // refState is what a matcher has done to the request so far.
@@ -685,6 +924,34 @@ func refEval(spec *MSpec, q Req, st refState) (bool, refState) {
 			}
 		}
 		return false, st
+	case "hv":
+		// modelled here, not run: the header matcher is a pure function of the Accept header, its key and
+		// its version list (whatever it remembers between calls or shares with other matchers must not show)
+		param, key := hvParamKey(spec.A[0])
+		if key == "" {
+			key = "version"
+		}
+		acc := q.Hdr["Accept"]
+		if acc == "" {
+			return false, st
+		}
+		_, ps, err := mime.ParseMediaType(acc)
+		if err != nil {
+			return false, st
+		}
+		for _, v := range spec.A[1:] {
+			if v == ps[key] {
+				ns := refState{path: st.path, params: map[string]string{}}
+				for k, x := range st.params {
+					ns.params[k] = x
+				}
+				if param != "" {
+					ns.params[param] = v
+				}
+				return true, ns
+			}
+		}
+		return false, st
 	default:
 		ok, ns := matchOnce(buildMatcher(spec), q, st)
 		if !ok {
@@ -692,6 +959,13 @@ func refEval(spec *MSpec, q Req, st refState) (bool, refState) {
 		}
 		return true, ns
 	}
+}
+
+func hvParamKey(a string) (param, key string) {
+	if i := strings.IndexByte(a, '@'); i >= 0 {
+		return a[:i], a[i+1:]
+	}
+	return a, ""
 }
 
 func obsKey13(o *Obs) string {
@@ -723,6 +997,14 @@ func execC13(w *World, st *Stats) (*Violation, RunInfo) {
 	for i := nAdmin; i < len(w.Ops); i++ {
 		op := &w.Ops[i]
 		if op.K != "req" {
+			// a later administrative phase: applied to the same group object, so that whatever it
+			// remembers from the requests served so far is still there
+			cg.apply(op, "")
+			twins = map[string]*c13Group{}
+			st.C("c13_late_admin")
+			if len(cg.dupAccepted) > 0 {
+				return &Violation{Prop: "C13", Oracle: "unique-names", Sig: "duplicate-name-accepted", Detail: fmt.Sprintf("Group.Add/New accepted a second router named %v", cg.dupAccepted)}, info
+			}
 			continue
 		}
 		st.C("op_req")
@@ -798,7 +1080,7 @@ func execC13(w *World, st *Stats) (*Violation, RunInfo) {
 		st.C("c13_acceptor")
 		tw := twins[winner]
 		if tw == nil {
-			tw = buildC13(w, nAdmin, winner)
+			tw = buildC13(w, i, winner) // every administrative op so far (requests are skipped)
 			twins[winner] = tw
 		}
 		want := Serve(tw.g, *op.Req, nil, nil)
